@@ -211,7 +211,7 @@ Proof.
   pose proof (dec_digits_wf (Z.abs_N z)) as W.
   unfold remove_sep, use_grouping, sign_str.
   destruct (o_sep o) as [|c0 sr] eqn:Es.
-  - simpl. rewrite andb_false_r. reflexivity.
+  - simpl. reflexivity.
   - destruct Hs as [Hd Hm]. cbn [is_empty].
     destruct (_ && _); destruct (z <? 0)%Z;
       rewrite ?rm_other by assumption;
